@@ -8,7 +8,8 @@
 (* layout, currentLayout must be the reference layout, and calls the       *)
 (* reference model cannot take (double save, restore/free without save, no *)
 (* save memory) must be refused and change nothing.                        *)
-(*   reset : [sh, P, rc, lays (record name -> ordering), l0]               *)
+(*   reset : [sh, PR (name -> [P, rc] of this rank in that layout),         *)
+(*            lays (record name -> ordering), l0]                           *)
 (*   op    : [op, lay, refused, name, block, di, bi, si, ns]               *)
 (* A stream whose accepted/refused outcome diverged from the model is      *)
 (* reported once and skipped up to the next reset (no cascades).           *)
@@ -24,7 +25,7 @@ GReset(l0) ==
     /\ cur' = [ver |-> 0, lay |-> l0] /\ saved' = None /\ last' = "ok" /\ nv' = 1
 
 ResetEv(e) == /\ GReset(e.l0) /\ cx' = e /\ dead' = FALSE
-              /\ Verdict(e, << <<"initial-block", BlockIs(e.block, e.sh, e.lays[e.l0], e.P, e.rc, 0)>> >>)
+              /\ Verdict(e, << <<"initial-block", BlockIs(e.block, e.sh, e.lays[e.l0], e.PR[e.l0].P, e.PR[e.l0].rc, 0)>> >>)
 
 Enabled(e) == CASE e.op = "setLayout" -> e.lay \in LayoutNames
                 [] e.op = "write"     -> TRUE
@@ -38,7 +39,7 @@ Act(e) == CASE e.op = "setLayout" -> SetLayout(e.lay, FALSE)
             [] e.op = "restore"   -> Restore
             [] e.op = "free"      -> Free
             [] OTHER -> FALSE
-Visible(e, c) == e.name = c.lay /\ BlockIs(e.block, cx.sh, cx.lays[c.lay], cx.P, cx.rc, c.ver)
+Visible(e, c) == e.name = c.lay /\ BlockIs(e.block, cx.sh, cx.lays[c.lay], cx.PR[c.lay].P, cx.PR[c.lay].rc, c.ver)
 
 OpEv(e) ==
     IF dead THEN UNCHANGED <<gvars, cx, dead>>
